@@ -384,6 +384,7 @@ DOC = {
 }
 FULL_TYPES = ["nets", "nets/vms", "nets/vms/images"]
 F7 = "abort-creates-root-via-default-check-mode"
+F_DELEGATE = "push-pop-delegate-reads-object-scoped-keys"
 F9S = "push-pop-ignore-skip-types"
 F9R = "push-pop-touch-readonly-image"
 
@@ -635,6 +636,15 @@ def judge(ctx, impl, case, i, op, params, before, res, calls, after):
                     _violate(ctx, F7, f"call #{i} {op}_states raised {res[4:]} after the nested check_states had "
                              f"created the missing root state", rep)
                 return
+    if op in ("push", "pop"):
+        stems = ("set_state_", "set_mode_") if op == "push" else ("get_state_", "get_mode_", "unset_state_", "unset_mode_")
+        scoped = sorted(k for k in params if k.startswith(stems))
+        if scoped:
+            _violate(ctx, F_DELEGATE, f"call #{i} {op}_states with {scoped} in the parameters: {op} delegates to "
+                     f"{'set' if op == 'push' else 'get and unset'}_states by writing the GENERIC {stems[0][:-1]} key, an "
+                     f"object-scoped key of the delegate operation overrides it: result {res} (table: {want[0]}), "
+                     f"before={store_str(before)} after={store_str(after)} predicted={store_str(want[2])}", rep)
+            return
     if res != want[0]:
         _violate(ctx, f"outcome-differs-from-doc-table:{op}",
                  f"call #{i} {op}_states returned {res}, the documented policy table gives {want[0]}", rep)
@@ -822,6 +832,17 @@ def gen_op(rng, nets, vms, images, malformed=False):
     if rng.random() < 0.7:
         for k in scoped_keys(rng, f"{op}_mode", nets, use_vms, images):
             p[k] = gen_mode(rng, op, 0.85)
+    if rng.random() < 0.45:
+        # full test-node parameters: the states and modes of the OTHER operations are defined as well (a setup node
+        # gets one state, sets another and cleans up a third) and must not influence this call
+        for other in ("get", "set", "unset"):
+            if other == op or (other, op) in (("set", "push"), ("get", "pop")) or rng.random() < 0.3:
+                continue
+            for k in scoped_keys(rng, f"{other}_state", nets, use_vms, images):
+                p.setdefault(k, rng.choice(STATES + STATES + ROOTS[:1]))
+            if rng.random() < 0.5:
+                for k in scoped_keys(rng, f"{other}_mode", nets, use_vms, images):
+                    p.setdefault(k, gen_mode(rng, other, 0.9))
     if op != "check" and rng.random() < 0.5:
         for k in scoped_keys(rng, "check_mode", nets, use_vms, images):
             p[k] = gen_mode(rng, "check", 0.9)
